@@ -15,7 +15,7 @@ RULE = ("features with n = 1..12 rows of dimension 2-D / 3-D / 4-D whose first e
         "(sampled in quick) left of, right of, straddling either end of, or covering the data, timeline focuses of up "
         "to 3 segments, each mode, fixed in {None, 0, duration, duration+step, duration+3*step+1} (long enough for >= 0 "
         "frames); return_data=False on segment focuses; iteration, extent, NumPy ufuncs and align(self) asserted in "
-        "the driver; decimal windows (10 ms / 25 ms, 0.1, 0.3, 1/3 s ...) with 1..60 rows (sampled in quick): align(self) identity, align to a feature of another length, iteration count; regime K0; non-trivial = some requested frame lies outside the data")
+        "the driver; crops on decimal windows judged in the driver against the window crop (rows = selected indices that exist, edge rows repeated with fixed, return_data=False window start); decimal windows (10 ms / 25 ms, 0.1, 0.3, 1/3 s ...) with 1..60 rows (sampled in quick): align(self) identity, align to a feature of another length, iteration count; regime K0; non-trivial = some requested frame lies outside the data")
 
 
 def generate(rng, tier):
@@ -51,6 +51,18 @@ def generate(rng, tier):
         for n in (list(range(1, 61)) + [97, 128, 333] if tier == "thorough" else rng.sample(range(1, 61), 14) + [57, 97]):
             cases.append({"k": "alignf", "regime": "K0", "step": step.hex(), "dur": dur.hex(),
                           "start": rng.choice([0.0, 0.0, 0.5, -0.37, 12.34]).hex(), "n": n, "m": rng.choice([1, 2, 7, 14, 28, 56, 33])})
+    # crops on decimal windows: the rows returned are those whose index the window crop selects and that exist
+    for _ in range(2500 if tier == "thorough" else 300):
+        step = rng.choice([0.01, 0.02, 0.016, 0.1, 0.3, 0.005])
+        dur = step * rng.choice([1, 2, 2.5, 3])
+        start = rng.choice([0.0, 0.0, 0.5, -0.37, 12.34])
+        n = rng.choice([1, 2, 7, 30, 57, 120])
+        a_ = start + round(rng.uniform(-20 * step, (n + 20) * step), rng.choice([1, 2, 3]))
+        b_ = a_ + round(rng.uniform(0, (n + 10) * step), rng.choice([1, 2, 3]))
+        cases.append({"k": "cropf", "regime": "K0", "step": float(step).hex(), "dur": float(dur).hex(), "start": float(start).hex(),
+                      "n": n, "focus": [float(a_).hex(), float(b_).hex()], "mode": rng.choice(list(MODES)),
+                      "fixed": rng.choice([None, None, float(round(rng.uniform(0, 40 * step), 2)).hex()]),
+                      "as_tl": rng.random() < 0.3})
     kinds = {}
     for c in cases:
         kinds[c["k"]] = kinds.get(c["k"], 0) + 1
@@ -109,6 +121,32 @@ def run(case):
             ok = isinstance(r, SlidingWindowFeature) and r.sliding_window.step == f.sliding_window.step \
                 and r.sliding_window.duration == f.sliding_window.duration and r.labels == f.labels
             return {"obs": [_rows(r.data, per, f.data.shape[1:]), tb.u(r.sliding_window.start)], "ok": bool(ok), "nrows": nrows}
+        if k == "cropf":
+            from pyannote.core import Timeline
+            fl = float.fromhex
+            n = case["n"]
+            w = SlidingWindow(duration=fl(case["dur"]), step=fl(case["step"]), start=fl(case["start"]))
+            data = np.arange(n * 2, dtype=float).reshape((n, 2))
+            f = SlidingWindowFeature(data, w, labels=["a", "b"])
+            seg = Segment(fl(case["focus"][0]), fl(case["focus"][1]))
+            focus = Timeline([seg, Segment(seg.end + 5 * w.step, seg.end + 9 * w.step)]) if case["as_tl"] else seg
+            kw = {} if case["fixed"] is None or case["as_tl"] else {"fixed": fl(case["fixed"])}
+            got = np.asarray(f.crop(focus, mode=case["mode"], **kw))
+            idx = [int(i) for i in w.crop(focus, mode=case["mode"], **kw)]
+            if kw:
+                want = data[[min(max(i, 0), n - 1) for i in idx]]          # out-of-range frames repeat the edge rows
+                ok = len(idx) == w.samples(kw["fixed"], mode=case["mode"])
+            else:
+                want = data[[i for i in idx if 0 <= i < n]]
+                ok = True
+            ok = ok and got.shape == want.shape and bool((got == want).all()) and bool((f.data == data).all())
+            if not kw and len(want) and not case["as_tl"]:
+                r = f.crop(focus, mode=case["mode"], return_data=False)
+                first = [i for i in idx if 0 <= i < n][0]
+                ok = ok and isinstance(r, SlidingWindowFeature) and r.sliding_window.step == w.step \
+                    and r.sliding_window.duration == w.duration and r.labels == f.labels \
+                    and abs(r.sliding_window.start - w[first].start) <= 1e-9 and bool((np.asarray(r.data) == want).all())
+            return {"ok": bool(ok), "nrows": int(len(want))}
         if k == "alignf":
             fl = float.fromhex
             n, m = case["n"], case["m"]
@@ -164,7 +202,7 @@ def run(case):
 
 def encode(case, o):
     e = enc
-    if case["k"] == "alignf":
+    if case["k"] in ("alignf", "cropf"):
         return f"KDriver {e.z(case['n'])} {e.b(o['ok'])}"
     eps = REGIMES[case["regime"]]["eps"]
     geo = f"{e.z(case['dur'])} {e.z(case['step'])} {e.z(case['start'])} {e.z(case['n'])}"
